@@ -11,6 +11,8 @@ import RoModel.Drivers.Overlap
 import RoModel.Drivers.Timed
 import RoModel.Drivers.Plugin
 import RoModel.Drivers.Resub
+import RoModel.Drivers.Subject
+import RoModel.Drivers.SubjLin
 namespace Ro.Driver
 
 def handlers : List (String × (Case → String)) := [
@@ -22,7 +24,9 @@ def handlers : List (String × (Case → String)) := [
   ("leak", Drivers.Cancel.runLeak),
   ("timed", Drivers.Timed.run),
   ("plugin", Drivers.Plugin.run),
-  ("resub", Drivers.Resub.run)
+  ("resub", Drivers.Resub.run),
+  ("subject", Drivers.Subject.run),
+  ("subjlin", Drivers.SubjLin.run)
 ]
 
 def runCase (c : Case) : String :=
